@@ -214,7 +214,8 @@ Definition qstep (st : fstate) (q : list N) (l : label) (ob : list (N * obs)) : 
       let st0 := put st (set_parked s false) in
       if o_closed o && queue_empty && (s_buf s =? 0) then QOk st0 q outs []
       else
-      match (if o_pending_open o then Ok st0 [] else clear_queue st0 sid) with
+      (* also for a stream still waiting to be opened (it keeps only its HEADERS; fix a052906 of /repo) *)
+      match clear_queue st0 sid with
       | Ok st1 o1 => q_add_outs outs (q_add_outs o1 (q_reclaim_all st1 q sid ob))
       | Stuck n => QStuck n
       | Panic n => QPanic n
